@@ -187,6 +187,30 @@ def check_send_close(case):
 
 
 def check_server(case):
+    """Runs _check_server under a watchdog: a call that blocks in the operating system (e.g. inside socket.accept with
+    nobody connecting) cannot be seen by the counted fake sleep, so the work runs in a daemon thread; if that thread
+    is still alive after 15 s with its stack inside mido, the call is reported as blocked forever (with the frame)."""
+    import sys
+    import threading
+    import traceback
+    box = {}
+
+    def work():
+        box['res'] = _check_server(case)
+    t = threading.Thread(target=work, daemon=True)
+    t.start()
+    t.join(15.0)
+    if t.is_alive():
+        frame = sys._current_frames().get(t.ident)
+        stack = traceback.extract_stack(frame) if frame is not None else []
+        inside = [f'{fr.filename.split("/mido/")[-1]}:{fr.name}' for fr in stack if '/mido/' in fr.filename]
+        return [fail('server-blocks-forever', f'server call still blocked after 15 s in {inside[-3:]} '
+                                              f'(drain={case.get("drain")})', drain=case.get('drain', 'poll'),
+                     where=(inside[-1] if inside else '?'))], 'ok'
+    return box['res']
+
+
+def _check_server(case):
     """case['clients'] = [{'msgs': [...], 'close': bool}]; drain method in case['drain']."""
     out = []
     server = None
@@ -208,12 +232,12 @@ def check_server(case):
         for ci, c in enumerate(case['clients']):
             cl = sockets_mod.connect('127.0.0.1', portno)
             clients.append(cl)
-            for d in c['msgs']:
-                m = mk(d)
-                cl.send(m)
-                total += 1
-            if c.get('close'):
-                cl.close()
+            if not case.get('late_send'):
+                for d in c['msgs']:
+                    cl.send(mk(d))
+                    total += 1
+                if c.get('close'):
+                    cl.close()
             # the listen backlog is 1: let the server accept this connection before the next client connects
             # (accepting happens inside poll); whatever it already hands out is collected
             with patched_sleep(fake):
@@ -225,6 +249,15 @@ def check_server(case):
                 except SleepBudget:
                     return [fail('server-blocks-forever', 'server.poll() (non-blocking) exhausted the sleep budget',
                                  drain='poll')], 'ok'
+        if case.get('late_send'):
+            # all connections are accepted and the server's own queue is empty before anything is sent: a blocking
+            # receive then has to find the message through its sub-ports
+            for cl, c in zip(clients, case['clients']):
+                for d in c['msgs']:
+                    cl.send(mk(d))
+                    total += 1
+                if c.get('close'):
+                    cl.close()
         drain = case.get('drain', 'poll')
         with patched_sleep(fake):
             fake.script.extend([tick] * 100000)
@@ -390,7 +423,8 @@ def server_cases(tier):
         out.append({'kind': 'server', 'drain': drain,
                     'clients': [{'msgs': notes(0, 2)}, {'msgs': notes(1, 5), 'close': True},
                                 {'msgs': notes(2, 1) + [{'type': 'sysex', 'data': list(range(40)), 'time': 0}]}]})
-    return out if tier == 'thorough' else out
+    out += [dict(c, late_send=True) for c in out]
+    return out
 
 
 def address_shard(rec, shard):
